@@ -9,8 +9,24 @@ tier = "quick"
 if "--tier" in args:
     i = args.index("--tier"); tier = args[i + 1]; del args[i:i + 2]
 ids = args or sorted(os.listdir("/verif/seeded"))
-ids = [i for i in ids if os.path.isdir(os.path.join("/verif/seeded", i))]
+ids = [i for i in ids if os.path.isfile(os.path.join("/verif/seeded", i, "meta.json"))]
+collect = "--collect" in ids or "--collect" in sys.argv
+ids = [i for i in ids if i != "--collect"]
 wt = "/tmp/verif-matrix-wt"
+def write_matrix():
+    # the table is rebuilt from every meta.json, so that partial runs accumulate
+    with open("/verif/seeded/MATRIX.md", "w") as f:
+        f.write("| seeded change | check | tier | result | violation keys |\n|---|---|---|---|---|\n")
+        for sid in sorted(os.listdir("/verif/seeded")):
+            mp = os.path.join("/verif/seeded", sid, "meta.json")
+            if not os.path.isfile(mp):
+                continue
+            meta = json.load(open(mp))
+            for d in meta.get("detected_by", []):
+                f.write("| %s | %s | %s | %s | %s |\n" % (sid, d["check"], d["tier"], d["result"], "; ".join(k.replace("|", "/")[:90] for k in d.get("keys", [])[:2])))
+if collect:
+    write_matrix()
+    sys.exit(0)
 subprocess.run(["git", "-C", "/repo", "worktree", "remove", "--force", wt], stderr=subprocess.DEVNULL)
 subprocess.run(["git", "-C", "/repo", "worktree", "add", "-q", "--detach", wt, "main"], check=True)
 rows = []
@@ -38,8 +54,4 @@ try:
         json.dump(meta, open(os.path.join(d, "meta.json"), "w"), indent=1)
 finally:
     subprocess.run(["git", "-C", "/repo", "worktree", "remove", "--force", wt])
-# evidence files were rewritten by the runs against the scratch copy: the caller re-runs the real checks
-with open("/verif/seeded/MATRIX.md", "w") as f:
-    f.write("| seeded change | check | result | violation keys |\n|---|---|---|---|\n")
-    for r in rows:
-        f.write("| %s | %s | %s | %s |\n" % r)
+write_matrix()
